@@ -757,5 +757,79 @@ func k10() *sched.Scenario {
 		}}
 }
 
-func TestC13Sched(t *testing.T) { run(t, "C13", k2(), k3(), k5(), k8(), k10()) }
+// k11: a ReadFrom that reports an exceeded deadline races a SetReadDeadline that moves the deadline an
+// hour into the future. Once SetReadDeadline has returned, a new ReadFrom waits for data: it does not
+// time out.
+func k11() *sched.Scenario {
+	return &sched.Scenario{Name: "K11-readfrom-timeout-vs-setreaddeadline", Bound: bound() - 1, FreeBound: 2, Opt: opt,
+		Body: func(*vsched.Sched) (func() []string, func()) {
+			w := newCWorld(100 * time.Millisecond)
+			var nt notes
+			peerA := vtx.PeerSpec["A"]
+			vsched.Go("server", w.autoServer)
+			vsched.Go("app", func() {
+				conn, err := w.cl.Allocate()
+				if err != nil {
+					nt.set("alloc", "failed:"+err.Error())
+
+					return
+				}
+				nt.set("alloc", "ok")
+				w.relayed = conn
+				_ = conn.SetReadDeadline(time.Now().Add(-time.Second)) // exceeded
+				inject := func(s string) {
+					_, _ = w.srv.WriteTo(wire.New(wire.Data, wire.Indication, [12]byte{1}).
+						XorAddr(wire.AttrXORPeerAddress, peerA.IP, peerA.Port).Str(wire.AttrData, s).Bytes(), w.cs.LocalAddr())
+				}
+				read := func(name string) {
+					buf := make([]byte, 100)
+					_, _, err := conn.ReadFrom(buf)
+					switch {
+					case err == nil:
+						nt.set(name, "data")
+					case strings.Contains(err.Error(), "timeout"):
+						nt.set(name, "timeout")
+					default:
+						nt.set(name, "error")
+					}
+				}
+				vsched.Mark()
+				vsched.Go("reader1", func() { read("reader1") })
+				vsched.Go("setter", func() {
+					_ = conn.SetReadDeadline(time.Now().Add(time.Hour))
+					nt.set("setter", "done")
+				})
+				vsched.IdleSleep(time.Second)
+				if nt.get("setter") != "done" {
+					return
+				}
+				if nt.get("reader1") == "" {
+					inject("for-reader1") // it started after the new deadline: it waits for data
+					vsched.IdleSleep(100 * time.Millisecond)
+				}
+				vsched.Go("reader2", func() { read("reader2") })
+				vsched.IdleSleep(time.Second)
+				nt.set("reader2-after-1s", nt.get("reader2"))
+				inject("for-reader2")
+				vsched.IdleSleep(100 * time.Millisecond)
+			})
+
+			return func() []string {
+				switch {
+				case nt.get("alloc") != "ok":
+					return []string{"c13:allocate-failed:" + nt.get("alloc")}
+				case nt.get("setter") != "done":
+					return []string{"c13:setreaddeadline-never-returned"}
+				case nt.get("reader2-after-1s") == "timeout":
+					return []string{"c13:readfrom-times-out-although-the-deadline-was-moved-an-hour-ahead"}
+				case nt.get("reader2") != "data":
+					return []string{"c13:readfrom-after-new-deadline:" + nt.get("reader2")}
+				}
+
+				return nil
+			}, w.teardown
+		}}
+}
+
+func TestC13Sched(t *testing.T) { run(t, "C13", k2(), k3(), k5(), k8(), k10(), k11()) }
 func TestC18Client(t *testing.T) { run(t, "C18", k1(), k1b(), k2(), k3(), k5(), k6(), k7(), k8(), k9(), k10()) }
